@@ -1,8 +1,8 @@
 #!/verif/.venv/bin/python
 # Replay of a solver counterexample against the unmodified code (no shims).
-# property=C01 kernel=pinit label=pinit:accept_iff_nonneg_and_equal_len
+# property=C01 kernel=finite label=finite:accepted_pulse_has_finite_samples
 import sys
 sys.path[:0] = ['/repo' + "/pulser-core", '/repo' + "/pulser-simulation", "/verif"]
 from symx.replay import replay
-sys.exit(replay(check='checks.c01', kernel='pinit', shape={'amp': 'const', 'n': 3, 'dd': 0},
-                assignment={'amp.v': '-2000000001/4000000004000000000', 'det.v': '0/1'}, label='pinit:accept_iff_nonneg_and_equal_len'))
+sys.exit(replay(check='checks.c01', kernel='finite', shape={'cls': 'ramp', 'dur': 1, 'as': 'amp'},
+                assignment={'start': '1/2', 'stop': '1/2', 'max_det': '0/1', 'max_amp': '0/1'}, label='finite:accepted_pulse_has_finite_samples'))
